@@ -47,7 +47,9 @@ var c15Placements = []string{"in-a-submodule", "direct", "grouping-local", "grou
 	// statements, each read in the module in which it is written
 	"must-by-refine-repeating-the-must-of-the-grouping",
 	// a when on a uses that stands directly in an augment with a when of its own: the nodes carry both
-	"when-on-uses-inside-an-augment-with-a-when"}
+	"when-on-uses-inside-an-augment-with-a-when",
+	// the statement stands on the key leaf of a list, directly or through a uses of another module's grouping
+	"on-a-list-key", "on-a-list-key-from-a-grouping"}
 var c15Stmts = []string{"must", "when", "path"}
 var c15PrefixUses = []string{"none", "own", "imported-by-definer-only", "imported-by-user-only", "same-prefix-different-modules", "undeclared", "same-prefix-in-included-submodule"}
 
@@ -143,7 +145,7 @@ func c15Build(placement, stmt, pu string, ex c15Expr, custom string) *c15Case {
 	use := yang.S("module", "c15-use", yang.S("namespace", nsUse), yang.S("prefix", "u"))
 	mx := yang.S("module", "c15-x", yang.S("namespace", nsX), yang.S("prefix", "x"), yang.S("container", "tgt-x", yang.S("leaf", "name", yang.S("type", "string"))))
 	my := yang.S("module", "c15-y", yang.S("namespace", nsY), yang.S("prefix", "y"), yang.S("container", "tgt-y", yang.S("leaf", "name", yang.S("type", "string"))))
-	direct := placement == "direct"
+	direct := placement == "direct" || placement == "on-a-list-key"
 	// the module in which the statement is textually written
 	writer := def
 	writerNS := nsDef
@@ -154,7 +156,7 @@ func c15Build(placement, stmt, pu string, ex c15Expr, custom string) *c15Case {
 	// the other module involved (where the statement ends up / where the carrying node is defined)
 	other := use
 	switch placement {
-	case "direct":
+	case "direct", "on-a-list-key":
 		other = nil
 	case "augment-other-module":
 		writer = yang.S("module", "c15-aug", yang.S("namespace", nsAug), yang.S("prefix", "a"))
@@ -264,6 +266,14 @@ func c15Build(placement, stmt, pu string, ex c15Expr, custom string) *c15Case {
 		c.leafPath = []string{"top-sub", "carrier"}
 	case "direct":
 		useTop.Add(leaf)
+	case "on-a-list-key":
+		useTop.Add(yang.S("list", "items", yang.S("key", "carrier"), leaf, yang.S("leaf", "other", yang.S("type", "string"))))
+		c.leafPath = []string{"top-use", "items", "some-entry", "carrier"} // (the child of a list node is an entry, named by its key value)
+	case "on-a-list-key-from-a-grouping":
+		def.Add(yang.S("grouping", "g", leaf))
+		imp(use, "c15-def", "d")
+		useTop.Add(yang.S("list", "items", yang.S("key", "carrier"), yang.S("uses", "d:g"), yang.S("leaf", "other", yang.S("type", "string"))))
+		c.leafPath = []string{"top-use", "items", "some-entry", "carrier"} // (the child of a list node is an entry, named by its key value)
 	case "grouping-local":
 		// grouping and uses both in the defining module
 		def.Add(yang.S("grouping", "g", leaf), yang.S("container", "top-def", yang.S("leaf", "name", yang.S("type", "string")), yang.S("uses", "g")))
